@@ -266,12 +266,12 @@ func vfPolyIn(p orb.Polygon, q orb.Point) bool {
 	return in
 }
 
-func vfC16Polygon_N(tier int) int { return len(vfPolys)*2 + 2 }
+func vfC16Polygon_N(tier int) int { return len(vfPolys)*2 + 2*5 }
 func vfC16Polygon_Label(c int) string {
 	if c/2 < len(vfPolys) {
 		return vfPolys[c/2].name + " o=" + []string{"CCW", "CW"}[c%2]
 	}
-	return "multi-polygon o=" + []string{"CCW", "CW"}[c%2]
+	return "multi-polygon[" + []string{"band, corner ring", "cut member, inside member with hole", "inside member with hole, cut member", "inside with hole, small inside, hole crossing the edge", "all members inside"}[c/2-len(vfPolys)] + "] o=" + []string{"CCW", "CW"}[c%2]
 }
 
 func vfC16Polygon(c int) {
@@ -283,9 +283,23 @@ func vfC16Polygon(c int) {
 	if c/2 < len(vfPolys) {
 		mpIn = orb.MultiPolygon{vfPolys[c/2].p.Clone()}
 	} else {
-		mpIn = orb.MultiPolygon{vfPolys[0].p.Clone(), {vfRings[5].Clone()}}
-		mpIn[0][0] = orb.Ring{{-1, 0.5}, {5, 0.5}, {5, 1.5}, {-1, 1.5}, {-1, 0.5}}
-		mpIn[0] = mpIn[0][:1]
+		cut := orb.Polygon{{{-1, 0.25}, {2, 0.25}, {2, 0.75}, {-1, 0.75}, {-1, 0.25}}}
+		inHole := vfPolys[7].p
+		small := orb.Polygon{{{3.25, 3.25}, {3.75, 3.25}, {3.75, 3.75}, {3.25, 3.75}, {3.25, 3.25}}}
+		switch c/2 - len(vfPolys) {
+		case 0:
+			mpIn = orb.MultiPolygon{vfPolys[0].p.Clone(), {vfRings[5].Clone()}}
+			mpIn[0][0] = orb.Ring{{-1, 0.5}, {5, 0.5}, {5, 1.5}, {-1, 1.5}, {-1, 0.5}}
+			mpIn[0] = mpIn[0][:1]
+		case 1:
+			mpIn = orb.MultiPolygon{cut.Clone(), inHole.Clone()}
+		case 2:
+			mpIn = orb.MultiPolygon{inHole.Clone(), cut.Clone()}
+		case 3:
+			mpIn = orb.MultiPolygon{inHole.Clone(), small.Clone(), vfPolys[1].p.Clone()}
+		case 4:
+			mpIn = orb.MultiPolygon{inHole.Clone(), small.Clone()}
+		}
 	}
 	if o == orb.CW {
 		for _, p := range mpIn {
